@@ -3,4 +3,4 @@ CONSTANTS
   MaxEntries = 5
   Limits = {0, 1, 2, 3, 6}
 INVARIANTS GrammarAtEnd GrammarAlways CountAtEnd GroupBounds StreamPrefix RawComplete NoWorkAfterLimit
-PROPERTY Terminates
+PROPERTIES Terminates RefinesInd
